@@ -81,7 +81,7 @@ func init() {
 		rule3 := "a key list handed to callers is never altered afterwards: no append onto a re-slice of the installed list (which writes through its backing array)"
 		c.Rule(rule3)
 		for _, fn := range p.SortedFuncs() {
-			ast.Inspect(fn.Decl.Body, func(n ast.Node) bool {
+			inspectFn(fn, func(n ast.Node) bool {
 				call, ok := n.(*ast.CallExpr)
 				if !ok || p.Builtin(call) != "append" || len(call.Args) == 0 {
 					return true
@@ -138,7 +138,7 @@ func recvIsLocalLiteral(p *core.Prog, fn *core.Func, call *ast.CallExpr) bool {
 	}
 	obj := p.Info.Uses[id]
 	found := false
-	ast.Inspect(fn.Decl.Body, func(n ast.Node) bool {
+	inspectFn(fn, func(n ast.Node) bool {
 		if as, ok := n.(*ast.AssignStmt); ok {
 			for i, l := range as.Lhs {
 				if lid, ok := l.(*ast.Ident); ok && i < len(as.Rhs) {
@@ -325,6 +325,7 @@ func indexGuards(c *Ctx, fn *core.Func) map[token.Pos]bool {
 		spec.recv = p.Info.Defs[fn.Decl.Recv.List[0].Names[0]]
 	}
 	x := gea.New(p, fn.Name+"$idx", fn.Decl.Type, fn.Decl.Body, spec)
+	x.InlineCallee = c.inlinePolicy
 	x.Run()
 	for _, e := range x.Effects {
 		if e.Class != "INDEXKEYS" {
@@ -359,7 +360,7 @@ func (s *idxSpec) Node(x *gea.Exec, st *gea.State, n ast.Node) *gea.State {
 
 func rangesKeysComparing(p *core.Prog, fn *core.Func) bool {
 	ok := false
-	ast.Inspect(fn.Decl.Body, func(n ast.Node) bool {
+	inspectFn(fn, func(n ast.Node) bool {
 		rs, isR := n.(*ast.RangeStmt)
 		if !isR || p.FieldOwner(rs.X) != "Keyring.keys" {
 			return true
@@ -414,7 +415,7 @@ func checkRemoveExact(c *Ctx) {
 	ruleR := "RemoveKey hands the install helper the installed list minus exactly the matched element: the only parts of the installed list it copies are keys[:i] and keys[i+1:] for the matched index i"
 	c.Rule(ruleR)
 	srcs := map[string]bool{}
-	ast.Inspect(rem.Decl.Body, func(n ast.Node) bool {
+	inspectFn(rem, func(n ast.Node) bool {
 		rs, ok := n.(*ast.RangeStmt)
 		if !ok || p.FieldOwner(rs.X) != "Keyring.keys" {
 			return true
@@ -455,7 +456,7 @@ func checkKeyUse(c *Ctx) {
 	c.Rule(rule)
 	ne, nd := 0, 0
 	for _, fn := range p.SortedFuncs() {
-		ast.Inspect(fn.Decl.Body, func(n ast.Node) bool {
+		inspectFn(fn, func(n ast.Node) bool {
 			call, ok := n.(*ast.CallExpr)
 			if !ok {
 				return true
@@ -479,7 +480,7 @@ func checkKeyUse(c *Ctx) {
 	c.Floor("decrypt call sites", nd, 2)
 	dp := c.MustFunc("decryptPayload")
 	okAll := false
-	ast.Inspect(dp.Decl.Body, func(n ast.Node) bool {
+	inspectFn(dp, func(n ast.Node) bool {
 		rs, ok := n.(*ast.RangeStmt)
 		if !ok {
 			return true
@@ -533,7 +534,7 @@ func valueIsCallTo(p *core.Prog, fn *core.Func, e ast.Expr, qual string) bool {
 	}
 	obj := p.Info.Uses[id]
 	n, good := 0, 0
-	ast.Inspect(fn.Decl.Body, func(nd ast.Node) bool {
+	inspectFn(fn, func(nd ast.Node) bool {
 		switch v := nd.(type) {
 		case *ast.AssignStmt:
 			for i, l := range v.Lhs {
